@@ -566,3 +566,34 @@ def replay_fallback(cp, c):
         return False
     cat = unicodedata.category(chr(cp))
     return (cp in cats[c]) == (cat == c if len(c) == 2 else cat[0] == c)
+
+
+# --- added after round-3 seeded changes: string arguments with one-character ranges ('x-x'), as the historical block tables contain ------
+
+_CH = ('a', 'c', 'x', chr(0xFEFF), chr(0x10330))
+
+
+@ob(budget=150, bound='string argument lo-hi with lo <= hi from a table of 5 characters (indices chosen by the solver; lo = hi included) given to the '
+                      'constructor, update, |=, -=, &= and ^=: the set is exactly [lo, hi] resp. the set-algebra result; the block tables of '
+                      'the oldest installable Unicode version load',
+    funcs=['elementpath/regex/codepoints.py:iterparse_character_subset', 'elementpath/regex/unicode_subsets.py:UnicodeSubset.__init__/update'])
+def string_argument_ranges(i: int, j: int, cp: int) -> bool:
+    """
+    pre: 0 <= i <= j <= 4 and 0 <= cp <= 0x10FFFF
+    post: _
+    """
+    lo = _CH[[k for k in range(5) if k == i][0]]
+    hi = _CH[[k for k in range(5) if k == j][0]]
+    arg = lo + '-' + hi
+    inside = ord(lo) <= cp <= ord(hi)
+    s1 = UnicodeSubset(arg)
+    s2 = UnicodeSubset()
+    s2.update(arg)
+    s3 = UnicodeSubset('0-9')
+    s3 |= arg
+    s4 = UnicodeSubset([(0, 0x110000)])     # tuples are half-open
+    s4 -= arg
+    s5 = UnicodeSubset([(90, 131)])          # (&= walks the code points of its operand: keep it small)
+    s5 &= arg
+    return (cp in s1) == inside and (cp in s2) == inside and (cp in s3) == (inside or 48 <= cp <= 57) and (cp in s4) == (not inside) \
+        and (cp in s5) == (inside and 90 <= cp <= 130) and len(s1) == ord(hi) - ord(lo) + 1
